@@ -13,9 +13,34 @@ Record tsfilt := mk_tsfilt {
   fq_data : list rmsg;
   fq_acodec : Z;        (* audioCodecId, -1 = unknown *)
   fq_vcodec : Z;        (* videoCodecId, -1 = unknown *)
-  fq_done : bool }.
+  fq_done : bool;
+  fq_version : N }.     (* pmtVersion: version_number of the PMT sent last *)
 
-Definition tsfilt_init : tsfilt := mk_tsfilt [] (-1) (-1) false.
+Definition tsfilt_init : tsfilt := mk_tsfilt [] (-1) (-1) false 0.
+
+(* announceLateTrack (lal fix of C06-ts-late-track-not-in-pmt): after the probe,
+   the first message of a track whose codec id is still unknown sets it; when
+   it is one PackPmt announces (AVC / HEVC, AAC / Opus) a new version of the
+   PMT goes out in front of the message.  Result: the filter and the PAT/PMT
+   block to send, if any. *)
+Definition late_track (f : tsfilt) (m : rmsg) : tsfilt * option bytes :=
+  let announce f' :=
+    let ver := u8 (fq_version f' + 1) in
+    (mk_tsfilt (fq_data f') (fq_acodec f') (fq_vcodec f') (fq_done f') ver,
+     Some (pack_pat ++ pack_pmt_ver (fq_vcodec f') (fq_acodec f') ver)) in
+  if rm_type m =? type_audio then
+    if negb (fq_acodec f =? -1)%Z || (lenN (rm_payload m) =? 0) then (f, None)
+    else
+      let a := Z.of_N (pb m 0 / 16) in
+      let f' := mk_tsfilt (fq_data f) a (fq_vcodec f) (fq_done f) (fq_version f) in
+      if (a =? 10)%Z || (a =? 13)%Z then announce f' else (f', None)
+  else if rm_type m =? type_video then
+    if negb (fq_vcodec f =? -1)%Z then (f, None)
+    else
+      let v := Z.of_N (video_codec_id m) in
+      let f' := mk_tsfilt (fq_data f) (fq_acodec f) v (fq_done f) (fq_version f) in
+      if (v =? 7)%Z || (v =? 12)%Z then announce f' else (f', None)
+  else (f, None).
 
 Record remuxer := mk_remuxer { x_filter : tsfilt; x_core : r2t }.
 Definition remuxer_init : remuxer := mk_remuxer tsfilt_init r2t_init.
@@ -45,18 +70,20 @@ Section Observer.
     let patpmt := pack_pat ++ pack_pmt (fq_vcodec f) (fq_acodec f) in
     let o0 := obs_patpmt o patpmt in
     let '(s1, o1, evs) := pop_all (x_core x) o0 (fq_data f) in
-    (mk_remuxer (mk_tsfilt [] (fq_acodec f) (fq_vcodec f) true) s1, o1, OutPatPmt patpmt :: map OutTs evs).
+    (mk_remuxer (mk_tsfilt [] (fq_acodec f) (fq_vcodec f) true (fq_version f)) s1, o1, OutPatPmt patpmt :: map OutTs evs).
 
   (* FeedRtmpMessage = filter.Push *)
   Definition feed_rtmp_message (x : remuxer) (o : O) (m : rmsg) : remuxer * O * list tsout :=
     let f := x_filter x in
     if fq_done f then
-      let '(s1, o1, evs) := on_pop O obs_decide obs_apply (x_core x) o m in
-      (mk_remuxer f s1, o1, map OutTs evs)
+      let (f', pp) := late_track f m in
+      let o0 := match pp with Some b => obs_patpmt o b | None => o end in
+      let '(s1, o1, evs) := on_pop O obs_decide obs_apply (x_core x) o0 m in
+      (mk_remuxer f' s1, o1, (match pp with Some b => [OutPatPmt b] | None => [] end) ++ map OutTs evs)
     else
       let a := if rm_type m =? type_audio then Z.of_N (pb m 0 / 16) else fq_acodec f in
       let v := if rm_type m =? type_video then Z.of_N (video_codec_id m) else fq_vcodec f in
-      let f1 := mk_tsfilt (fq_data f ++ [m]) a v false in
+      let f1 := mk_tsfilt (fq_data f ++ [m]) a v false (fq_version f) in
       if negb (v =? -1)%Z && negb (a =? -1)%Z then drain x o f1
       else if Nat.leb filter_max_msgs (length (fq_data f1)) then drain x o f1
       else (mk_remuxer f1 (x_core x), o, []).
